@@ -26,6 +26,15 @@ def fmt_dur(sec):
     return "%dmin" % (sec // 60)
 
 
+def fmt_gap(sec):
+    """A gap DURATION is calendar time: whole days and weeks are written as such (1d = 24 h, 1w = 7 d)."""
+    if sec and sec % (7 * 86400) == 0:
+        return "%dw" % (sec // (7 * 86400))
+    if sec and sec % 86400 == 0:
+        return "%dd" % (sec // 86400)
+    return fmt_dur(sec)
+
+
 def fmt_eff(fr):
     fr = Fraction(fr)
     s = "%.2f" % float(fr)
@@ -268,7 +277,7 @@ class Proj:
                 ref = self.relref(t, to) if dep_style == "rel" else self.full(to)
                 opts = []
                 if gap:
-                    opts.append("gapduration %s" % fmt_dur(gap))
+                    opts.append("gapduration %s" % fmt_gap(gap))
                 if len(d) > 3 and d[3]:
                     opts.append("gaplength %s" % fmt_dur(d[3]))
                 if onstart:
@@ -277,7 +286,7 @@ class Proj:
             for pr in t.precedes:
                 to, pgap = pr if isinstance(pr, tuple) else (pr, 0)
                 ref = self.relref(t, to) if dep_style == "rel" else self.full(to)
-                L.append("%sprecedes %s%s" % (i2, ref, " { gapduration %s }" % fmt_dur(pgap) if pgap else ""))
+                L.append("%sprecedes %s%s" % (i2, ref, " { gapduration %s }" % fmt_gap(pgap) if pgap else ""))
             if t.limits:
                 L.append("%slimits { %s }" % (i2, " ".join(
                     "%s %s%s" % ("dailymax" if k == "d" else "weeklymax", fmt_limit(v),
@@ -1316,7 +1325,7 @@ def render_abstract(A, start=datetime(2024, 1, 1), length="+1w"):
         for d in t["deps"]:
             opts = []
             if d["gap"]:
-                opts.append("gapduration %s" % fmt_dur(d["gap"]))
+                opts.append("gapduration %s" % fmt_gap(d["gap"]))
             if d["onstart"]:
                 opts.append("onstart")
             L.append("%sdepends %s%s" % (i2, tasks[d["p"] - 1]["name"], " { %s }" % " ".join(opts) if opts else ""))
